@@ -1,5 +1,8 @@
 import BSModel.Driver.Util
 import BSModel.Model.Formatter
+import BSModel.Model.FormatterBuild
+import BSModel.Model.FormatterPopulate
+import BSModel.Gen.FormatterHtml5
 import BSModel.Gen.Formatter
 /-! line protocol of C15 (formatters)
 
@@ -7,6 +10,10 @@ import BSModel.Gen.Formatter
     c15 ffn <isXml> <fmt>                            formatter_for_name: attributes or KeyError
     c15 run <isXml> <fmt> <mode> <parent> <ng> <graph>*ng <tree>
                                                      resolve the formatter, then render
+    c15 runat <chain> <rootAttr> <fmt> <mode> <parent> <ng> <graph>*ng <tree>   like run; the flavour comes from isXmlOf
+    c15 populate | c2e | e2c                         the mirror of _populate_class_variables on the generated stdlib tables:
+                                                     alternatives key/notNext/repl, CHARACTER_TO_HTML_ENTITY, HTML_ENTITY_TO_CHARACTER
+    c15 substpop <cps>                               substitute_html over the mirror's alternatives
     c15 subst x|h <cps>                              substitute_xml / substitute_html (re.sub over the generated table)
     c15 substrev <cps>                               substitute_html with the alternatives listed in reverse
 
@@ -139,22 +146,96 @@ def parseGraph (l : List String) : List (Subst × PStr × PStr) :=
     | [es, a, b] => some (parseSubst es, pcps a, pcps b)
     | _ => none
 
-def runMode (c : Cfg) (i : Subst → PStr → PStr) (mode : String) (parent : Option PStr) (n : Node) : String :=
-  let kidsOf : Node → Option (PStr × List Node) := fun
-    | .tag nm _ _ _ _ ks => some (nm, ks)
-    | .str _ _ => none
-  if mode == "D" then showP (render c i parent n)
-  else if mode == "C" then
-    match kidsOf n with
-    | some (nm, ks) => showP (renderL c i (some nm) ks)
-    | none => "bad-receiver"
-  else if mode.startsWith "P" then showP (pretty c i (mode.drop 1).toString.toNat! parent n)
-  else if mode.startsWith "Q" then
-    match kidsOf n with
-    | some (nm, ks) => showP (prettyL c i (mode.drop 1).toString.toNat! (some nm) ks)
-    | none => "bad-receiver"
-  else if mode == "L" then "[" ++ ";".intercalate ((calls c parent n).map showP) ++ "]"
-  else "bad-mode"
+def parseMode (mode : String) : Option Mode :=
+  if mode == "D" then some .decode
+  else if mode == "C" then some .contents
+  else if mode.startsWith "P" then some (.pretty (mode.drop 1).toString.toNat!)
+  else if mode.startsWith "Q" then some (.prettyContents (mode.drop 1).toString.toNat!)
+  else none
+
+def showOut : Out → String
+  | .ok s => showP s
+  | .keyError => "KeyError"
+  | .badReceiver => "bad-receiver"
+
+/-! raw trees and builder configurations (op `build`)
+
+    c15 build <eet> <pwt> <cla> <ondup> <rawtree>     the built tree, in the `tree` syntax above
+    eet   := N | E | <cps>;<cps>…        pwt := E | <cps>;…      ondup := r | i
+    cla   := E | <key>=<cps>;<cps>…|<key>=…   (a value may be E for the empty set)
+    rawtree := S <kind> <cps> | T <name> <nattrs> (<key> <N|v<cps>|v->)*nattrs <nkids> rawtree*nkids -/
+
+def parseCla (s : String) : List (PStr × List PStr) :=
+  if s == "E" then [] else (s.splitOn "|").filterMap fun e => match e.splitOn "=" with
+    | [k, v] => some (pcps k, parseNames v)
+    | _ => none
+
+def parseRawAttrs : Nat → List String → Option (List (PStr × Option PStr) × List String)
+  | 0, rest => some ([], rest)
+  | n + 1, k :: v :: rest =>
+    match parseRawAttrs n rest with
+    | some (as, rest') => some ((pcps k, if v == "N" then none else some (pcps (v.drop 1).toString)) :: as, rest')
+    | none => none
+  | _ + 1, _ => none
+
+mutual
+def parseRaw : Nat → List String → Option (RawNode × List String)
+  | 0, _ => none
+  | _ + 1, "S" :: k :: v :: rest => some (.str (parseKind k) (pcps v), rest)
+  | f + 1, "T" :: nm :: na :: rest =>
+    match parseRawAttrs na.toNat! rest with
+    | some (as, nk :: rest') =>
+      match parseRawKids f nk.toNat! rest' with
+      | some (ks, rest'') => some (.tag (pcps nm) as ks, rest'')
+      | none => none
+    | _ => none
+  | _ + 1, _ => none
+def parseRawKids : Nat → Nat → List String → Option (List RawNode × List String)
+  | 0, _, _ => none
+  | _ + 1, 0, rest => some ([], rest)
+  | f + 1, n + 1, rest =>
+    match parseRaw f rest with
+    | some (k, rest') =>
+      match parseRawKids f n rest' with
+      | some (ks, rest'') => some (k :: ks, rest'')
+      | none => none
+    | none => none
+end
+
+def showVal : AttrVal → String
+  | .none => "N"
+  | .str s => "s" ++ showP s
+  | .list l => "l" ++ (if l.isEmpty then "-" else ";".intercalate (l.map showP))
+
+mutual
+def showNode : Node → List String
+  | .str k v => ["S", toString k.code, showP v]
+  | .tag n p as cbe pre ks =>
+    ["T", showP n, showP p, bit cbe, bit pre, toString as.length] ++ as.flatMap (fun kv => [showP kv.1, showVal kv.2])
+      ++ [toString ks.length] ++ showNodes ks
+def showNodes : List Node → List String
+  | [] => []
+  | k :: ks => showNode k ++ showNodes ks
+end
+
+def doRun (isXml : Bool) (fmt mode parent ng : String) (rest : List String) : String :=
+    match parseFmt fmt with
+    | none => "bad-fmt"
+    | some a =>
+      let k := ng.toNat!
+      let graph := parseGraph (rest.take k)
+      let tt := rest.drop k
+      let par := if parent == "N" then none else some (pcps parent)
+      match parseNode (tt.length + 1) tt with
+      | some (n, []) =>
+        if mode == "L" then
+          match formatterForName BS.Gen.fmtHtmlRegistry BS.Gen.fmtXmlRegistry isXml a with
+          | .keyError => "KeyError"
+          | .ok c => "[" ++ ";".intercalate ((calls c par n).map showP) ++ "]"
+        else match parseMode mode with
+          | some m => showOut (entry BS.Gen.fmtHtmlRegistry BS.Gen.fmtXmlRegistry isXml a (interpOf graph) m par n)
+          | none => "bad-mode"
+      | _ => "bad-tree"
 
 def handle : List String → String
   | ["ctor", fmt] =>
@@ -168,19 +249,45 @@ def handle : List String → String
       | .ok c => showCfg c
       | .keyError => "KeyError"
     | none => "bad-fmt"
-  | "run" :: isXml :: fmt :: mode :: parent :: ng :: rest =>
+  | "run" :: isXml :: fmt :: mode :: parent :: ng :: rest => doRun (isXml == "1") fmt mode parent ng rest
+  | "runat" :: chain :: rootAttr :: fmt :: mode :: parent :: ng :: rest =>
+    -- the flavour is computed by the model's walk over the known_xml chain (N / 0 / 1, innermost first, comma separated)
+    let ch : List (Option Bool) := (chain.splitOn ",").filterMap fun t =>
+      if t == "N" then some none else if t == "1" then some (some true) else if t == "0" then some (some false) else none
+    doRun (isXmlOf ch (rootAttr == "1")) fmt mode parent ng rest
+  | "build" :: eet :: pwt :: cla :: od :: tt =>
+    let b : BuilderCfg := { emptyElementTags := if eet == "N" then none else some (parseNames eet),
+                            preserveWhitespaceTags := parseNames pwt, cdataListAttributes := parseCla cla,
+                            onDuplicate := if od == "i" then .ignore else .replace }
+    match parseRaw (tt.length + 1) tt with
+    | some (t, []) => " ".intercalate (showNode (build b t))
+    | _ => "bad-tree"
+  | "runhook" :: hook :: fmt :: parent :: ng :: rest =>
+    -- decode(formatter=<instance of a subclass overriding attributes()>): U items as they come, R sorted in reverse,
+    -- D the base class's answer without the keys that start with "data-"
     match parseFmt fmt with
-    | none => "bad-fmt"
-    | some a =>
-      match formatterForName BS.Gen.fmtHtmlRegistry BS.Gen.fmtXmlRegistry (isXml == "1") a with
-      | .keyError => "KeyError"
-      | .ok c =>
-        let k := ng.toNat!
-        let graph := parseGraph (rest.take k)
-        let tt := rest.drop k
-        match parseNode (tt.length + 1) tt with
-        | some (n, []) => runMode c (interpOf graph) mode (if parent == "N" then none else some (pcps parent)) n
-        | _ => "bad-tree"
+    | some (.obj c) =>
+      let k := ng.toNat!
+      let graph := parseGraph (rest.take k)
+      let tt := rest.drop k
+      let par := if parent == "N" then none else some (pcps parent)
+      let h : AttrHook :=
+        if hook == "U" then id
+        else if hook == "R" then fun as => (sortAttrs as).reverse
+        else fun as => (attributes c as).filter fun kv => !([100, 97, 116, 97, 45].isPrefixOf kv.1)
+      match parseNode (tt.length + 1) tt with
+      | some (n, []) => showP (renderHook h c (interpOf graph) par n)
+      | _ => "bad-tree"
+    | _ => "bad-fmt"
+  | ["populate"] =>
+    -- the alternatives the mirror of `_populate_class_variables` assembles from the generated stdlib tables
+    " ".intercalate ((populateAlts BS.Gen.c15Html5Items BS.Gen.c15Codepoint2name).map fun a =>
+      showP a.key ++ "/" ++ showP a.notNext ++ "/" ++ showP a.repl)
+  | ["c2e"] =>
+    " ".intercalate ((charToEntity BS.Gen.c15Html5Items BS.Gen.c15Codepoint2name).map fun e => showP e.1 ++ "/" ++ showP e.2)
+  | ["e2c"] =>
+    " ".intercalate ((popLoop BS.Gen.c15Html5Items).nameToUnicode.map fun e => showP e.1 ++ "/" ++ showP e.2)
+  | ["substpop", s] => showP (reSub (populateAlts BS.Gen.c15Html5Items BS.Gen.c15Codepoint2name) (pcps s))
   | ["subst", "x", s] => showP (substXml (pcps s))
   | ["subst", "h", s] => showP (reSub BS.Gen.htmlAlts (pcps s))
   | ["substrev", s] => showP (reSub BS.Gen.htmlAlts.reverse (pcps s))
